@@ -294,15 +294,18 @@ func (vm *VirtualMachine) runCodeInternal(ctx context.Context, codeToRun *compil
 	vm.activateCode(0, startIP, codeObj)
 
 	// Run the entrypoint until completion
-	if err := vm.eval(vm.initContext(ctx)); err != nil {
-		return err
-	}
+	evalErr := vm.eval(vm.initContext(ctx))
 	// The code may have reached its end only because the context is over: a
 	// blocked primitive gives up then (a range over a channel ends as if the
 	// channel were closed, try catches the callback's error) and what follows
-	// can finish before the watcher has set the halt flag. The outcome of an
-	// evaluation whose context is over is the context's error.
-	return ctx.Err()
+	// can finish before the watcher has set the halt flag. And what it fails
+	// with then is often the consequence (a child process that was killed).
+	// The outcome of an evaluation whose context is over is the context's
+	// error.
+	if err := ctx.Err(); err != nil {
+		return err
+	}
+	return evalErr
 }
 
 // clearStack empties the operand stack.
@@ -959,12 +962,12 @@ func (vm *VirtualMachine) Call(
 	vm.clearStack()
 	vm.fp = 0
 	result, err = vm.callFunction(vm.initContext(ctx), fn, args)
-	if err != nil {
-		return nil, err
+	// As in runCodeInternal: a call that ended, one way or the other, because
+	// the context is over ends with the context's error
+	if ctxErr := ctx.Err(); ctxErr != nil {
+		return nil, ctxErr
 	}
-	// As in runCodeInternal: a call that ran to its end because the context
-	// is over ends with the context's error
-	if err := ctx.Err(); err != nil {
+	if err != nil {
 		return nil, err
 	}
 	return result, nil
